@@ -38,6 +38,7 @@ ALPHABET = [
     "> #", "> [a]: /u", "* * *", "> <div>", "> 1.", ">     c",
 ]
 INLINE_ALPHABET = ["*", "**", "_", "~~", "[", "]", "](u)", "![", "`", "a", " ", "<", ">", "&", "\\", "\n", "<http://x.y>", "(", ")", "\"", "&#", ";", ":", "!"]
+TYPO_ALPHABET = ["(", ")", "c", "C", "r", "R", "tm", "tM", "Tm", "TM", "p", "+-", "..", ".", "?", "!", ",", "-", "--", " ", "\"", "'", "a", "\n"]
 ENUM_CFGS = [
     C.simple("commonmark", enable=["table"]),
     C.simple("js-default"),
@@ -91,6 +92,13 @@ def enumerate_cases(tier: str, shard: int, nshards: int):
     m = 4 if tier == "quick" else 5
     for k in range(1, m + 1):
         for combo in itertools.product(INLINE_ALPHABET, repeat=k):
+            idx += 1
+            if idx % nshards != shard:
+                continue
+            yield {"kind": "enum", "src": "".join(combo)}
+    # typographic triggers: every concatenation of <= 3 tokens (the typographer is on in the last enumeration config)
+    for k in range(1, 4):
+        for combo in itertools.product(TYPO_ALPHABET, repeat=k):
             idx += 1
             if idx % nshards != shard:
                 continue
